@@ -57,7 +57,7 @@ MANIFEST = {
             "layout insensitivity of whole programs (blanks "
             "and line breaks inside the compound-atomic expression rule are explicit grammar calls) stays with the "
             "layout searches; the model's pair tree is compared with pest's generated parser on ~5000 generated, "
-            "corpus, README and mutated texts per run (PEG-tree, PEG-malformed)",
+            "corpus, README and mutated texts per run (PEG-tree, PEG-malformed); round 7: the operator words via / into / where are searched like every other plain name, plus statement-start templates (open finding C10-operator-word-name)",
     "note": "trusted: Coq kernel + vm_compute; translate/prec_table.py and translate/ident_rules.py (source text -> "
             "tables; shape-checked, cross-checked against operator_info of the built crate and against the real parser "
             "by the PARSE / IDENT-model / LEX-after streams); hand transcription of pest 2.8.3 pratt_parser.rs and of "
